@@ -13,7 +13,8 @@
    that delivers an error response for id it has lost image id (`pre_store`). *)
 From Coq Require Import List Arith NArith Bool Lia.
 From SNT Require Import Surface.Shape Surface.ShapeProofs Image.Kitty Image.KittySpec
-  Image.KittyParse Image.KittyProofs Image.KittyHistory Corr.C11Corr Image.KittyCheck.
+  Image.KittyParse Image.KittyProofs Image.KittyHistory Corr.C11Corr Image.KittyCheck
+  Image.Fnv Image.KittyPigeon.
 Import ListNotations.
 Local Open Scope N_scope.
 
@@ -136,6 +137,29 @@ Theorem C11_pairing_corner_refuted : exists p1 p2 : N * N,
 Proof.
   exists (0, 0), (65535, 65535). repeat split; try reflexivity. discriminate.
 Qed.
+
+(* the collision is forced: whatever numbering of positions by valid ids one picks, two distinct
+   positions with coordinates below 65536 get the same id (2^32 positions, 2^32 - 1 ids) *)
+Theorem C11_pid_pigeonhole : forall f : N * N -> N,
+  (forall p, in_dom p -> 1 <= f p <= 4294967295) ->
+  exists p1 p2, in_dom p1 /\ in_dom p2 /\ p1 <> p2 /\ f p1 = f p2.
+Proof. exact pid_pigeonhole. Qed.
+
+(* same content -> same id: the model of Surface::hash (Image/Fnv.v: fnv-1a over height, width and
+   the pixels in row-major order; compared with the crate's value on every case) reads nothing but
+   height, width and pixel bytes -- not the backing vector, offsets or strides *)
+Theorem C11_same_content_same_id : forall img1 img2 : image,
+  im_height img1 = im_height img2 -> im_width img1 = im_width img2 -> pix_bytes img1 = pix_bytes img2 ->
+  image_id (surface_hash img1) = image_id (surface_hash img2).
+Proof. intros img1 img2 Hh Hw Hp. f_equal. exact (same_content_same_hash img1 img2 Hh Hw Hp). Qed.
+
+(* the two identifier defects of the unfixed code, on the model side (formulas before the fix:
+   id = hash mod 4294967295, placement id = row mod 65536 + (col mod 65536) * 65536): the 1x1 image
+   RGBA(178,12,127,104) had image id 0 and position (0,0) had placement id 0 = "unspecified" *)
+Theorem C11_before_fix_refuted :
+  surface_hash (mkImage [(178, 12, 127, 104)] (of_size 1 1)) mod 4294967295 = 0 /\
+  (fst (0, 0) mod 65536) + (snd (0, 0) mod 65536) * 65536 = 0.
+Proof. vm_compute. split; reflexivity. Qed.
 
 (* ------------------------------------------------------------------------------------------ *)
 (* (all of it, through the predicate of the check)  `c11_code` is the property predicate that the
